@@ -510,6 +510,30 @@ def rule_index(ctx):
     ctx.require(n >= 8, 'C13.index', f'only {n} computed list indexes found')
 
 
+def rule_stays_ended(ctx):
+    ctx.rule('C13.once', 'a pattern stream that has ended stays ended: the attribute whose None means "not started yet" is written in next() '
+                         'only inside the start branch (reset() and __init__ are the other writers), so polling past the end raises again '
+                         'instead of embedding the pattern from the beginning')
+    n = 0
+    for cfq in ('sc3.seq.eventstream:PatternValueStream', 'sc3.seq.eventstream:PatternEventStream'):
+        ci = ctx.repo.cls(cfq)
+        f = ci.methods.get('next')
+        if f is None:
+            continue
+        starts = [x for x in walk_local(f.node) if isinstance(x, ast.If) and isinstance(x.test, ast.Compare) and len(x.test.ops) == 1
+                  and isinstance(x.test.ops[0], ast.Is) and U.is_self_attr(x.test.left) and isinstance(x.test.comparators[0], ast.Constant) and x.test.comparators[0].value is None]
+        ctx.require(len(starts) == 1, 'C13.once', f'{cfq}.next: start test (`if self.<stream> is None`) not found')
+        attr = starts[0].test.left.attr
+        n += 1
+        outside = [norm(x)[:60] for x in walk_local(f.node) if isinstance(x, (ast.Assign, ast.AugAssign, ast.Delete))
+                   for t in (x.targets if isinstance(x, (ast.Assign, ast.Delete)) else [x.target]) if U.is_self_attr(t, attr)
+                   and not U.in_body(x, starts[0], 'body')]
+        ctx.ob('C13.once', f'{f.fq}:stays-ended', not outside,
+               f'{ci.name}.next writes self.{attr} outside the start branch ({outside}): after the end the stream counts as not started and the '
+               f'next poll re-embeds the pattern', f.node, f.module)
+    ctx.require(n == 2, 'C13.once', f'{n} pattern stream classes analysed')
+
+
 def run(ctx):
     from ..report import SubCtx
     from . import c10
@@ -519,6 +543,7 @@ def run(ctx):
     rule_index(ctx)
     c15.rule_order(ctx, rid='C13.ops', families=[f for f in c15.FAMILIES if f[0].startswith('sc3.seq.pattern')], least=5)
     rule_once(ctx)
+    rule_stays_ended(ctx)
     rule_wf(ctx)
     rule_pure(ctx)
     rule_fresh(ctx)
@@ -529,6 +554,9 @@ def run(ctx):
 
 
 MUTANTS = [
+    dict(rule='C13.once', name='an exhausted value stream drops its generator and restarts on the next poll (seed C13-i)', file='sc3/seq/eventstream.py',
+         old="                return self._stream.send(inval)\n        except StopIteration:\n            raise stm.StopStream from None",
+         new="                return self._stream.send(inval)\n        except StopIteration:\n            self._stream = None\n            raise stm.StopStream from None"),
     dict(rule='C13.inval', name='(fix reverted) Pchain threads the chained output through the name of the in-event', file='sc3/seq/patterns/eventpatterns.py',
          old="                outevent = inevent.copy()\n                for stream in streams:\n                    outevent = stream.next(outevent)\n                inevent = yield outevent",
          new="                inevent = inevent.copy()\n                for stream in streams:\n                    inevent = stream.next(inevent)\n                inevent = yield inevent"),
